@@ -164,14 +164,24 @@ def cp_path(cfg, path):
     return {"kind": "cp", "cfg": cfg, "steps": steps}
 
 
+def _paths(acts, L, stride, sd):
+    """all paths of length L; with stride > 1: all paths of length L - 1 and every stride-th path of length L"""
+    if stride > 1:
+        yield from itertools.product(acts, repeat=L - 1)
+    for idx, path in enumerate(itertools.product(acts, repeat=L)):
+        if stride <= 1 or (idx + sd) % stride == 0:
+            yield path
+
+
 def run_sp(job):
-    cfgs, acts, L, n_random, rlen, sd = job
+    cfgs, acts, L, n_random, rlen, sd = job[:6]
+    stride = job[6] if len(job) > 6 else 1
     rnd = random.Random(sd)
     out = []
     for cfg in cfgs:
         for shared in ((False, True) if cfg["host"] != "plain" else (False,)):
             cls = make_sp(dict(cfg, shared=shared))
-            for path in itertools.product(acts, repeat=L):
+            for path in _paths(acts, L, stride, sd):
                 out.append(sp_path(cls, cfg, list(path)))
                 out[-1]["shared"] = shared
             for _ in range(n_random):
@@ -195,11 +205,12 @@ def run_sp_frozen(job):
 
 
 def run_cp(job):
-    cfgs, acts, L, n_random, rlen, sd = job
+    cfgs, acts, L, n_random, rlen, sd = job[:6]
+    stride = job[6] if len(job) > 6 else 1
     rnd = random.Random(sd)
     out = []
     for cfg in cfgs:
-        for path in itertools.product(acts, repeat=L):
+        for path in _paths(acts, L, stride, sd):
             out.append(cp_path(cfg, list(path)))
         for _ in range(n_random):
             out.append(cp_path(cfg, [rnd.choice(acts) for _ in range(rlen)]))
